@@ -256,7 +256,7 @@ def run_shard(ctx):
                 for dialect in DIALECTS:
                     if (dialect, c) not in supported:
                         continue
-                    if c in ('where', 'having', 'on') and fold_neg(fold_neg(bare))[0] == 'leaf':
+                    if c in ('where', 'having', 'on') and _is_plain_value(bare):
                         # WHERE/HAVING demand an operation; a folded constant such as -1 is not one (not a grouping matter)
                         acc.count('skipped_non_boolean_context')
                         continue
@@ -308,6 +308,15 @@ def run_shard(ctx):
                             break
                     if len(acc.samples) < 5 and nops >= 3 and idx % 13 == 0:
                         acc.sample({'sql': sql, 'dialect': dialect, 'tree': X.full(bare), 'grouping_ok': True})
+
+
+def _is_plain_value(t):
+    """a leaf, or unary minus signs over a numeric constant (which the grammar folds into one constant): not an operation"""
+    while t[0] == 'neg':
+        t = t[1]
+        if t[0] == 'leaf' and not re.fullmatch(r'[0-9.]+', t[1] or ''):
+            return False
+    return t[0] == 'leaf'
 
 
 def _nodes(t):
